@@ -99,7 +99,7 @@ def lin_wellformed(prog):
             elif t == "take":
                 has(s["x"], "a")
                 new(s["z"], "r")
-            elif t in ("destroy", "consume", "use"):
+            elif t in ("destroy", "consume", "use", "cmove"):
                 need(has(s["x"]) == s["k"])
             elif t == "swap":
                 need(s["x"] != s["y"] and has(s["x"]) == has(s["y"]))
@@ -221,6 +221,8 @@ def lin_enumerate(max_size, max_vars, forms):
                 yield {"t": "destroy", "x": y, "k": "r"}, nvars
                 if "use" in forms:
                     yield {"t": "use", "x": y, "k": "r", "form": "call"}, nvars
+                if "cmove" in forms:
+                    yield {"t": "cmove", "x": y, "k": "r", "form": "and"}, nvars
             if "swap" in forms:
                 for a, b in itertools.combinations(scope, 2):
                     yield {"t": "swap", "x": a, "y": b}, nvars
@@ -262,7 +264,8 @@ def lin_family_loopjump():
                     jb = ([{"t": "destroy", "x": "v0", "k": kind}] if pre else []) + [{"t": jump}]
                     for shape in ("then", "else", "elseif-then", "elseif-else", "iflet-then", "iflet-else"):
                         for noelse in ((False, True) if shape == "then" else (False,)):
-                            for after in ("destroy", "consume", "move", "use-destroy", "none"):
+                            for after in ("destroy", "consume", "move", "use-destroy", "none",
+                                          "cmove-and", "cmove-or", "cmove-coal", "cmove-cond", "cmove-destroy"):
                                 body = [{"t": "decl", "x": "v0", "k": kind}]
                                 if shape == "then":
                                     body.append({"t": "if", "then": jb, "else": [], "noelse": noelse})
@@ -291,6 +294,11 @@ def lin_family_loopjump():
                                 elif after == "use-destroy":
                                     body += [{"t": "use", "x": "v0", "k": kind, "form": "call"},
                                              {"t": "destroy", "x": "v0", "k": kind}]
+                                elif after == "cmove-destroy":
+                                    body += [{"t": "cmove", "x": "v0", "k": kind, "form": "and"},
+                                             {"t": "destroy", "x": "v0", "k": kind}]
+                                elif after.startswith("cmove-"):
+                                    body.append({"t": "cmove", "x": "v0", "k": kind, "form": after[6:]})
                                 out.append(copy.deepcopy([{"t": loop, "body": body}]))
     return out
 
@@ -305,6 +313,8 @@ def _vary(body, rng):
             s["t"] = "for"
         elif t == "use" and rng.random() < 0.3:
             s["form"] = "ref"
+        elif t == "cmove":
+            s["form"] = rng.choice(["and", "or", "coal", "cond"])
         elif t in ("if", "iflet") and not s["else"] and rng.random() < 0.5:
             s["noelse"] = True
         elif t == "move" and s.get("form") == "var" and rng.random() < 0.3:
@@ -616,6 +626,13 @@ def lin_mutate(body, rng):
                 s.update({"t": rng.choice(["panic", "break", "continue", "return"])})
                 if s["t"] == "return":
                     s.update({"x": "", "ret": keep.get("ret", False)})
+    elif r < 0.95:                                # replace a consumption by a move inside a conditionally evaluated operand
+        cons = []
+        _walk(body, lambda s: cons.append(s) if s["t"] in ("destroy", "consume") else None)
+        if cons:
+            s = rng.choice(cons)
+            s["t"] = "cmove"
+            s["form"] = rng.choice(["and", "or", "coal", "cond"])
     else:                                         # plain assignment between two variables of one kind (always an overwrite)
         decls = []
         _walk(body, lambda s: decls.append((s["x"], s["k"])) if s["t"] == "decl" else None)
@@ -718,11 +735,11 @@ def check_C03(ctx):
     rng = random.Random(1000003 * ctx.seed + 17)
     # ---- generation
     if ctx.quick:
-        sysm = lin_enumerate(4, 3, {"move", "use"})
+        sysm = lin_enumerate(4, 3, {"move", "use", "cmove"})
         extra = lin_enumerate(5, 2, {"move"})
         nextra, nrand, batch = 3000, 6000, 8000
     else:
-        sysm = lin_enumerate(5, 3, {"move", "use"})
+        sysm = lin_enumerate(5, 3, {"move", "use", "cmove"})
         extra = lin_enumerate(6, 2, {"move"})
         nextra, nrand, batch = 40000, 90000, 20000
     nsys_exh = len(sysm)
